@@ -180,8 +180,21 @@ pub fn check_rp_valid(sim: &Sim, snap: &Snap) -> Result<usize, Bad> {
                 .unwrap_or(false);
             let subject = pp_of(mft).map(|x| x.0).unwrap_or_default();
             let gone = !sim.model.cas.get(&subject).map(|m| m.parents.contains(TA)).unwrap_or(false);
+            // does the proxy still hold a request or an unfetched response of the subject?
+            let undelivered = ta_issued && gone && {
+                sim.w()
+                    .cam()
+                    .get_trust_anchor_proxy()
+                    .ok()
+                    .and_then(|p| serde_json::to_value(&*p).ok())
+                    .and_then(|v| v.get("child_details").and_then(|c| c.get(&subject)).cloned())
+                    .map(|d| ["open_requests", "open_responses"].iter().any(|k| d.get(*k).and_then(|x| x.as_object()).map(|o| !o.is_empty()).unwrap_or(false)))
+                    .unwrap_or(false)
+            };
             let key = if ta_issued && gone && sim.flags.has(&format!("roll_under_ta:{subject}")) {
                 "ta-issued-for-departed-child-with-open-roll-request"
+            } else if undelivered {
+                "ta-issued-for-departed-child-with-undelivered-response"
             } else if ta_issued {
                 "ta-issued"
             } else if !sim.model.cas.contains_key(&subject) && sim.flags.has(&format!("entitlement_emptied:{subject}")) {
